@@ -21,6 +21,7 @@ package main
 // fan-out stage feeds, the channel is closed exactly once after the input is exhausted
 // and the function waits for the display goroutine (join obligation).
 //@ func HandleMessages
+//@ spawns[C11] DisplayMessages
 //@ requires config != nil
 //@ requires[C13,C09] config.TimeoutOnEOFMilliSeconds <= 1<<40 && config.WaitTimeOnEOFMilliseconds <= 1<<40
 //@ noterm runs until the input is exhausted
